@@ -28,6 +28,9 @@ def ser_b(v) -> Any:
 def parse_p(v: Any) -> str:
     CALLS.append(("parse_p", v))
     return "p:" + str(v)
+def parse_q(v: Any) -> str:
+    CALLS.append(("parse_q", v))
+    return "q:" + str(v)
 def ser_s(v) -> Any:
     CALLS.append(("ser_s", v))
     return str(v).upper()
@@ -44,24 +47,27 @@ def sdl():
             ins.append(f"input I{s}{i} {{ f: {st.replace('T', s)} nested: I{s}{i} other: Int }}")
             args.append(f"  e{s}{i}(v: {st.replace('T', s)}): Int")
             args.append(f"  x{s}{i}(inp: I{s}{i}): Int")
-    return ("scalar B\nscalar P\nscalar S\nscalar DT\nscalar U\n"
+    tf.append("  q: Q")
+    return ("scalar B\nscalar P\nscalar S\nscalar DT\nscalar U\nscalar Q\n"
             "type Query {\n  t: Obj!\n" + "\n".join(args) + "\n}\n"
             "type Obj {\n" + "\n".join(tf) + "\n  sub: Obj\n  subs: [Obj!]\n}\n" + "\n".join(ins) + "\n")
 
 
 def ops():
-    out = ["fragment F on Obj { rB0 rP1 }"]
+    out = ["fragment F on Obj { rB0 rP1 q }"]
     for s in SCALARS:
         for i, st in enumerate(STACKS):
             out.append(f"query R{s}{i} {{ t {{ r{s}{i} }} }}")
             out.append(f"query A{s}{i}($v: {st.replace('T', s)}) {{ e{s}{i}(v: $v) }}")
             out.append(f"query X{s}{i}($inp: I{s}{i}) {{ x{s}{i}(inp: $inp) }}")
-    out.append("query Nest { t { sub { rB0 subs { rB2 ...F } } } }")
+    # Q has the same Python type as P but its own parse function: both occur in one operation and in one fragment
+    out.append("query Nest { t { q rP0 sub { rB0 subs { rB2 ...F } } } }")
     return "\n".join(out)
 
 
 CONFIG = {"scalars": {"B": {"type": ".scal.Code", "parse": ".scal.parse_b", "serialize": ".scal.ser_b"},
                       "P": {"type": "str", "parse": ".scal.parse_p"},
+                      "Q": {"type": "str", "parse": ".scal.parse_q"},
                       "S": {"type": "str", "serialize": ".scal.ser_s"},
                       "DT": {"type": "datetime.datetime"}},
           "files_to_include": ["scal.py"], "target_package_name": "p07", "async_client": False}
@@ -237,13 +243,16 @@ def nested_result_case(which: int):
     mi = META["Nest"]
     Model = getattr(PKG, mi.model)
     if which == 0:
-        payload = {"t": {"sub": {"rB0": "x", "subs": [{"rB2": ["y", None], "rB0": None, "rP1": "z"}]}}}
-        want_calls = [("parse_b", "x"), ("parse_b", "y"), ("parse_p", "z")]
+        payload = {"t": {"q": "qq", "rP0": "pp", "sub": {"rB0": "x", "subs": [{"rB2": ["y", None], "rB0": None, "rP1": "z", "q": "w"}]}}}
+        want_calls = [("parse_q", "qq"), ("parse_p", "pp"), ("parse_b", "x"), ("parse_b", "y"), ("parse_p", "z"), ("parse_q", "w")]
     else:
-        payload = {"t": {"sub": None}}
+        payload = {"t": {"sub": None, "q": None, "rP0": None}}
         want_calls = []
     obj = Model.model_validate(payload)
-    return sorted(map(str, SC.CALLS)) == sorted(map(str, want_calls)), f"nested: calls {SC.CALLS}"
+    ok = sorted(map(str, SC.CALLS)) == sorted(map(str, want_calls))
+    if which == 0:
+        ok = ok and obj.t.q == "q:qq" and obj.t.sub.subs[0].q == "q:w" and obj.t.sub.subs[0].r_p_1 == "p:z"
+    return ok, f"nested: calls {SC.CALLS}"
 
 
 def check_results(si: int, ki: int, sh: int) -> bool:
